@@ -303,6 +303,7 @@ func randSize(r *vh.Rng, remaining int) uint {
 }
 
 type unitCase struct {
+	long             bool // long reads: several Read calls and buffer growth inside one operation
 	bufsize, maxinit int
 	rbr              bool
 	data             []byte
@@ -325,6 +326,16 @@ func genOps(r *vh.Rng, uc *unitCase) {
 		var o codec.VerifReadOp
 		for {
 			o = codec.VerifReadOp{}
+			if uc.long && r.Chance(3, 4) {
+				o.Kind = r.PickInt(5, 5, 6, 6, 7, 8, 0)
+				if o.Kind != 0 {
+					o.N = uint(r.PickInt(1025, 1500, 2049, 2500, 3000, remaining, remaining/2+1, 700))
+				}
+				if o.Kind != 8 || uc.bufsize > 0 || recording || o.N == 0 {
+					break
+				}
+				continue
+			}
 			if recording && r.Chance(1, 3) { // close recordings often: what was recorded is the observable
 				o.Kind = 14
 			} else if !recording && nread > 0 && r.Chance(1, 8) {
@@ -440,6 +451,16 @@ func unitStream(r *vh.Rng, n int, casesPath string, sum *vh.Summary) {
 		uc.maxinit = r.PickInt(0, 0, 0, 1100)
 		uc.rbr = r.Bool()
 		uc.data = randData(r)
+		if i%25 == 7 { // long reads, mostly unbuffered: the scratch buffer grows between the chunks of one read
+			uc.long = true
+			uc.bufsize = r.PickInt(0, 0, 0, 16, 300)
+			uc.data = r.Bytes(1100 + r.Intn(3300))
+			for k := range uc.data {
+				if uc.data[k] == 0 {
+					uc.data[k] = byte(1 + k%250)
+				}
+			}
+		}
 		uc.script = randScript(r, len(uc.data))
 		uc.finHard = r.Chance(1, 6)
 		genOps(r, uc)
@@ -801,9 +822,12 @@ func apiStream(r *vh.Rng, n int, maxOff int, sum *vh.Summary) {
 					noDeadline = true // every hung Decode keeps spinning; one is enough
 				case got.err == nil && binary[format]:
 					sum.FailC("api", cls, "Decode succeeds although the reader ended before the value was complete", c2)
-				case got.err == nil && kind == "error" && k > 0 && isNumCh(pre[k-1]):
-					// the delivered bytes end inside (or at the undecidable end of) a number: the decoder had to ask for
-					// more and was given the reader's error, which it may not swallow (json; binary is covered above)
+				case got.err == nil && kind == "error" && k > 0 && pre[k-1] >= '0' && pre[k-1] <= '9':
+					// the delivered bytes end in a digit: a number is the only token that can end in a digit and it is
+					// not self-delimiting (literals such as false/true/null end in a letter and are), so the decoder had
+					// to ask for more and was given the reader's error, which it may not swallow (json; binary is
+					// covered above). Holds for every shape: the buffered reader refills through Read whether or not
+					// the reader has ReadByte, the unbuffered one gets the error from Read/ReadByte directly.
 					sum.FailC("api", cls, "Decode succeeds although the reader failed (not EOF) while a number was being read", c2)
 				case got.err == nil && wantk.err != nil:
 					sum.FailC("api", cls, "Decode from a truncated reader succeeds where Decode from the same truncated []byte fails", c2)
@@ -1176,20 +1200,286 @@ func narrowStream(r *vh.Rng, n int, maxOff int, sum *vh.Summary) {
 	}
 }
 
+// sweepReaders decodes b into a fresh value of type t through every schedule x
+// ReaderBufferSize (plain and ByteReader alternating) and compares with the
+// []byte decode (value, error-ness, NumBytesRead). It reports the first
+// difference as a failure of the given stream/class and returns the number of runs.
+func sweepReaders(sum *vh.Summary, stream, cls string, format string, o vh.Opts, b []byte, t reflect.Type,
+	cj map[string]interface{}, i int, rbsList []int, schedules [][]resp) (runs int, ok bool) {
+	mkHandle := func(rbs int) codec.Handle {
+		oo := vh.Opts{}
+		for k, x := range o {
+			oo[k] = x
+		}
+		oo["ReaderBufferSize"] = rbs
+		return vh.NewHandle(format, oo)
+	}
+	h0 := mkHandle(0)
+	want := decodeWith(func() *codec.Decoder { return codec.NewDecoderBytes(b, h0) }, t)
+	if want.err != nil || want.hung {
+		return 0, false
+	}
+	for _, rbs := range rbsList {
+		h := mkHandle(rbs)
+		for si, sc := range schedules {
+			rbr := (si+i)%3 == 0
+			runs++
+			got := decodeWith(func() *codec.Decoder { rd, _ := mkReader(b, sc, io.EOF, rbr); return codec.NewDecoder(rd, h) }, t)
+			what := ""
+			switch {
+			case got.hung:
+				what = "Decode from the reader did not return"
+			case got.err != nil:
+				what = "Decode from the reader fails where Decode from []byte succeeds"
+			case !vh.DeepEq(got.v, want.v, vh.EqOpts{}):
+				what = "Decode from the reader gives a different value than Decode from []byte"
+			case got.n != want.n:
+				what = "NumBytesRead differs between reader and []byte"
+			}
+			if what == "" {
+				continue
+			}
+			c2 := map[string]interface{}{"ReaderBufferSize": rbs, "bytereader": rbr}
+			for k, x := range cj {
+				c2[k] = x
+			}
+			var ks []interface{}
+			for _, x := range sc {
+				ks = append(ks, x.k)
+			}
+			if len(ks) > 40 {
+				ks = ks[:40]
+			}
+			c2["chunks_then_rest"] = ks
+			if got.err == nil && !got.hung {
+				iv, bv := fmt.Sprintf("%+v", got.v.Interface()), fmt.Sprintf("%+v", want.v.Interface())
+				if len(iv) > 300 {
+					d := 0
+					for d < len(iv) && d < len(bv) && iv[d] == bv[d] {
+						d++
+					}
+					c2["first_difference_at_char"] = d
+					iv, bv = iv[max(0, d-20):min(len(iv), d+60)], bv[max(0, d-20):min(len(bv), d+60)]
+				}
+				c2["io_value"], c2["bytes_value"] = iv, bv
+			}
+			bm := "unbuffered"
+			if rbs > 0 {
+				bm = "buffered"
+			}
+			sum.FailC(stream, cls+":"+bm, what, c2)
+			if got.hung {
+				sum.Print()
+				os.Exit(0)
+			}
+			return runs, true
+		}
+	}
+	return runs, true
+}
+
+func fixedChunks(n, k int) []resp {
+	out := make([]resp, 0, n/k+1)
+	for x := 0; x < n; x += k {
+		out = append(out, resp{k, x%3 == 0})
+	}
+	return out
+}
+
+func randChunks(r *vh.Rng, n, maxChunk int) []resp {
+	var chunks []resp
+	for got := 0; got < n+4; {
+		if r.Chance(1, 4) {
+			for j := 1 + r.Intn(15); j > 0; j-- {
+				chunks = append(chunks, resp{0, false})
+			}
+		}
+		k := 1 + r.Intn(maxChunk)
+		got += k
+		chunks = append(chunks, resp{k, r.Bool()})
+	}
+	return chunks
+}
+
+// ---- number-into-string stream (json) ----
+//
+// The json decoder accepts a number where the Go destination is a string (the
+// string is the number's text). That text is a view of the reader's buffer until
+// it is detached; more input follows it. Sender: numeric fields; receiver: string
+// fields, []string, map[string]string.
+
+type nsNumSrc struct {
+	ID    int64
+	Name  string
+	Tags  []interface{}
+	Price float64
+	M     map[string]uint32
+	Z     int
+}
+type nsNumDst struct {
+	ID    string
+	Name  string
+	Tags  []string
+	Price string
+	M     map[string]string
+	Z     string
+}
+
+func numStrStream(r *vh.Rng, n int, maxOff int, sum *vh.Summary) {
+	for i := 0; i < n; i++ {
+		src := nsNumSrc{ID: 1234567890123, Name: "a-perfectly-ordinary-name", Tags: []interface{}{1000001, 2000002, "third-tag-is-a-string", 4000004}}
+		if i > 0 {
+			src = nsNumSrc{ID: int64(r.U64() >> uint(r.Intn(60))), Name: vh.RandString(r, vh.ValOpts{MaxLen: 30, BigLens: true}), Price: float64(r.Intn(1000000)) / 64, Z: r.Intn(100) - 50, M: map[string]uint32{}}
+			for k := r.Intn(5); k > 0; k-- {
+				if r.Bool() {
+					src.Tags = append(src.Tags, r.Intn(1<<30))
+				} else {
+					src.Tags = append(src.Tags, vh.RandString(r, vh.ValOpts{MaxLen: 12}))
+				}
+			}
+			for k := r.Intn(4); k > 0; k-- {
+				src.M[vh.RandString(r, vh.ValOpts{MaxLen: 8})] = uint32(r.U64())
+			}
+		}
+		o := vh.Opts{}
+		if i > 1 {
+			o = vh.RandEncOpts(r, "json")
+			delete(o, "StructToArray")
+			delete(o, "IntegerAsString")
+		}
+		var b []byte
+		if err := codec.NewEncoderBytes(&b, vh.NewHandle("json", o)).Encode(&src); err != nil {
+			sum.Count("numstr.encode-error", "")
+			continue
+		}
+		t := reflect.TypeOf(nsNumDst{})
+		cj := map[string]interface{}{"format": "json", "opts": o.String(), "source": "main.nsNumSrc", "destination": t.String(), "text": string(b), "seed_index": i}
+		schedules := [][]resp{nil}
+		for _, k := range []int{1, 2, 3, 5, 7, 16} {
+			schedules = append(schedules, fixedChunks(len(b), k))
+		}
+		schedules = append(schedules, randChunks(r, len(b), 6))
+		step := 1
+		if len(b) > maxOff {
+			step = 1 + len(b)/maxOff
+		}
+		for k := 1; k < len(b); k += step {
+			schedules = append(schedules, []resp{{k, false}})
+		}
+		runs, ok := sweepReaders(sum, "numstr", "json:number-into-string", "json", o, b, t, cj, i, []int{0, 1, 2, 7, 16, 64, 4096}, schedules)
+		if !ok {
+			sum.Count("numstr.bytes-decode-error", "")
+			continue
+		}
+		sum.Count("numstr.json", fmt.Sprintf("numstr/len%d/tags%d/m%d", len(b)/8, len(src.Tags), len(src.M)))
+		sum.Evaluations += runs - 1
+		sum.Dist["numstr.reader-runs"] += runs
+		if i < 1 {
+			sum.Sample(cj)
+		}
+	}
+}
+
+// ---- long-value stream ----
+//
+// Strings and byte strings of 1 KB - 20 KB: one readx/readb/skip needs several
+// Read calls (requests are capped by MaxInitLen, default 1024) and the unbuffered
+// reader's scratch buffer, or the buffered reader's buffer, grows in between.
+
+type lvRec struct {
+	A string
+	B []byte
+	C int
+	D string
+}
+
+func longStream(r *vh.Rng, n int, sum *vh.Summary) {
+	mkBytes := func(l int) []byte {
+		b := r.Bytes(l)
+		for k := range b {
+			b[k] = 'A' + b[k]%57 // printable, never zero: a lost chunk shows as zero or stale bytes
+		}
+		return b
+	}
+	lens := []int{1025, 2047, 2500, 3000, 4097, 6000, 9000, 20000}
+	for i := 0; i < n; i++ {
+		format := vh.Formats[i%len(vh.Formats)]
+		l := lens[(i/len(vh.Formats))%len(lens)]
+		if i >= len(vh.Formats)*len(lens) {
+			l = 1025 + r.Intn(12000)
+		}
+		var v interface{}
+		var t reflect.Type
+		switch r.Intn(5) {
+		case 0:
+			x := string(mkBytes(l))
+			v, t = &x, reflect.TypeOf("")
+		case 1:
+			x := mkBytes(l)
+			v, t = &x, reflect.TypeOf([]byte(nil))
+		case 2:
+			x := []string{"short", string(mkBytes(l)), "tail", string(mkBytes(l / 2))}
+			v, t = &x, reflect.TypeOf([]string(nil))
+		case 3:
+			x := lvRec{A: string(mkBytes(l)), B: mkBytes(l/3 + 1), C: 7, D: "end"}
+			v, t = &x, reflect.TypeOf(lvRec{})
+		default:
+			x := map[string][]byte{"k1": mkBytes(l), "k2": mkBytes(40)}
+			v, t = &x, reflect.TypeOf(map[string][]byte(nil))
+		}
+		targets := []reflect.Type{t, t, t, vh.IfaceType, reflect.TypeOf(codec.Raw(nil))}
+		tg := targets[r.Intn(len(targets))]
+		o := vh.Opts{}
+		if i%3 == 2 {
+			o = vh.RandEncOpts(r, format)
+		}
+		if r.Chance(1, 4) {
+			o["MaxInitLen"] = r.PickInt(1500, 3000, 100000)
+		}
+		var b []byte
+		if err := codec.NewEncoderBytes(&b, vh.NewHandle(format, o)).Encode(v); err != nil {
+			sum.Count("long.encode-error", "")
+			continue
+		}
+		cj := map[string]interface{}{"format": format, "opts": o.String(), "type": t.String(), "destination": tg.String(), "payload_len": l, "encoded_len": len(b),
+			"bytes_head": vh.Hex(b[:min(len(b), 48)]), "seed_index": i, "regenerate": "VERIF_SEED and -long N reproduce the payload"}
+		schedules := [][]resp{nil, fixedChunks(len(b), 1024), fixedChunks(len(b), 1000), fixedChunks(len(b), 1500), fixedChunks(len(b), 100),
+			fixedChunks(len(b), 4096), fixedChunks(len(b), 7), randChunks(r, len(b), 900), randChunks(r, len(b), 3000)}
+		if len(b) < 3000 {
+			schedules = append(schedules, fixedChunks(len(b), 1))
+		}
+		runs, ok := sweepReaders(sum, "long", format+":long-value:"+tg.String(), format, o, b, tg, cj, i, []int{0, 0, 1, 16, 300, 4096}, schedules)
+		if !ok {
+			sum.Count("long.bytes-decode-error", "")
+			continue
+		}
+		sum.Count("long."+format, fmt.Sprintf("long/%s/%s/%s/len%d", format, t.String(), tg.String(), l/512))
+		sum.Evaluations += runs - 1
+		sum.Dist["long.reader-runs"] += runs
+		if i < 1 {
+			sum.Sample(cj)
+		}
+	}
+}
+
 func main() {
 	nUnit := flag.Int("unit", 600, "unit cases (model-compared)")
 	nAPI := flag.Int("api", 150, "api cases")
 	nMapKey := flag.Int("mapkeys", 40, "map-key cases (every one-/two-split schedule x 6 buffer sizes)")
 	mapKeyLen := flag.Int("mapkeylen", 40, "longest encoding used by the map-key stream")
 	nNarrow := flag.Int("narrow", 60, "narrow-destination cases (sender struct has fields the receiver lacks)")
+	nNumStr := flag.Int("numstr", 30, "json number-into-string cases")
+	nLong := flag.Int("long", 40, "long-value cases (1 KB - 20 KB strings/bytes)")
 	maxOff := flag.Int("offsets", 48, "inputs up to this length get a chunk boundary / truncation at every offset")
 	cases := flag.String("cases", "/verif/build/c03/cases", "directory for the model case files")
 	flag.Parse()
 	r := vh.NewRng(vh.SeedFromEnv())
-	sum := vh.NewSummary("unit: random protocol-respecting decReaderI op lists x ReaderBufferSize {0,1,2,3,7,16,64,256,300} x MaxInitLen x plain/ByteReader x reader scripts (1-byte, chunks, zero-length runs below and above 16, data with EOF, terminal EOF or error); non-trivial = has a script or >= 8 bytes; distinct by (mode, reader shape, buffer size, last op, error class, Read calls, numread/4). api: 5 formats x random type/value/options x target (typed, Raw, interface{}) x ReaderBufferSize x reader shapes (all-at-once, 1-byte, random chunks with empty reads, data with EOF, two chunks at every offset, iotest One/Half/DataErr/Timeout readers, plain and ByteReader) x truncation at every offset with 4 endings; distinct by (format, target, kind, length/8). mapkey: 5 formats x string-keyed map types without a fast path (struct, named, pointer, array, nested-map values, named and interface keys, inside slices/structs) x every one-split, two-split and fixed-size chunk schedule of encodings up to -mapkeylen bytes x ReaderBufferSize {1,2,7,16,64,4096}, plain and ByteReader; distinct by (format, type, length/4). narrow: 5 formats (binc half the time, AsSymbols on) x a struct with string-keyed maps sharing keys in several fields decoded into structs that lack the first / first two / middle fields, into Raw and into maps of Raw x ReaderBufferSize {0,1,2,7,16,64,4096} x all-at-once, fixed chunks 1,2,3,5,7,16, random chunks with empty reads, a split at every offset, plain and ByteReader; distinct by (format, symbols, destination, length/8)")
+	sum := vh.NewSummary("unit: random protocol-respecting decReaderI op lists x ReaderBufferSize {0,1,2,3,7,16,64,256,300} x MaxInitLen x plain/ByteReader x reader scripts (1-byte, chunks, zero-length runs below and above 16, data with EOF, terminal EOF or error); non-trivial = has a script or >= 8 bytes; distinct by (mode, reader shape, buffer size, last op, error class, Read calls, numread/4). api: 5 formats x random type/value/options x target (typed, Raw, interface{}) x ReaderBufferSize x reader shapes (all-at-once, 1-byte, random chunks with empty reads, data with EOF, two chunks at every offset, iotest One/Half/DataErr/Timeout readers, plain and ByteReader) x truncation at every offset with 4 endings; distinct by (format, target, kind, length/8). mapkey: 5 formats x string-keyed map types without a fast path (struct, named, pointer, array, nested-map values, named and interface keys, inside slices/structs) x every one-split, two-split and fixed-size chunk schedule of encodings up to -mapkeylen bytes x ReaderBufferSize {1,2,7,16,64,4096}, plain and ByteReader; distinct by (format, type, length/4). narrow: 5 formats (binc half the time, AsSymbols on) x a struct with string-keyed maps sharing keys in several fields decoded into structs that lack the first / first two / middle fields, into Raw and into maps of Raw x ReaderBufferSize {0,1,2,7,16,64,4096} x all-at-once, fixed chunks 1,2,3,5,7,16, random chunks with empty reads, a split at every offset, plain and ByteReader; distinct by (format, symbols, destination, length/8). numstr: json numbers (struct fields, slice elements, map values) decoded into string destinations with more input following, same reader sweep; distinct by (length/8, tags, map size). long: 5 formats x 1 KB-20 KB strings / byte strings (alone, in slices, structs, maps; typed, interface{} and Raw destinations) x ReaderBufferSize {0,1,16,300,4096} x MaxInitLen x all-at-once, fixed chunks 1,7,100,1000,1024,1500,4096 and random chunks; distinct by (format, type, destination, length/512); unit stream: every 25th case has 1.1-4.4 KB of data and reads of 700-3000 bytes")
 	unitStream(r.Fork(), *nUnit, *cases, sum)
 	apiStream(r.Fork(), *nAPI, *maxOff, sum)
 	mapKeyStream(r.Fork(), *nMapKey, *mapKeyLen, sum)
 	narrowStream(r.Fork(), *nNarrow, *maxOff, sum)
+	numStrStream(r.Fork(), *nNumStr, *maxOff, sum)
+	longStream(r.Fork(), *nLong, sum)
 	sum.Print()
 }
